@@ -450,3 +450,11 @@
 ; ---- pruning writes (ghost): number of deletes issued to the pruning batch, and the key of the last one
 ;@ghost nprunes Int
 ;@ghost lastpruned Slice
+
+; a write that only initialises a fresh byte row (make, append's new backing array, string conversion)
+; leaves every existing node, node key and byte row as it was
+;@allocfact BM nframe N
+; outcome flags of the two assumed persistence boundaries used by versioned reads (ghost):
+; set by every call of GetFastNode / GetImmutable to "the call returned an error"
+;@ghost fnfail Bool
+;@ghost immfail Bool
